@@ -378,7 +378,7 @@ struct LcSim : Harness {
       if (nm == 0) return; size_t mi = (size_t) argi(1) % nm; if (mods[mi].created) return;
       MIR_module_t before = DLIST_TAIL(MIR_module_t, *MIR_get_module_list(ctx));
       if (o == "scan") { phase("MIR_scan_string", "module " + std::to_string(mi)); std::string t = module_text(mi); if (getenv("LCSIM_DUMP")) fprintf(stderr, "%s\n", t.c_str()); MIR_scan_string(ctx, t.c_str()); mods[mi].via = "scan"; C->count("module_via_scan"); }
-      else if (o == "c2m" && uses(prog_json->at("mods")[mi], "extn")) return;  // no C form for the many-argument external: created by the fallback scan
+      else if (o == "c2m" && (uses(prog_json->at("mods")[mi], "extn") || prog::prog_has_two_results(*prog_json))) return;  // (nor for functions with two results)  // no C form for the many-argument external: created by the fallback scan
       else if (o == "c2m") {
         if (!c2m_on) { phase("c2mir_init"); c2mir_init(ctx); c2m_on = true; }
         std::string src = module_c(mi); CSrc cs{&src, 0}; struct c2mir_options opts; memset(&opts, 0, sizeof opts);
@@ -603,31 +603,33 @@ struct LcSim : Harness {
       std::set<const Json *> seen;
       for (auto d : model.entered) if (seen.insert(d).second && seen.size() <= 6) for (auto &kv : fns) for (auto &x : kv.second) if (x.def == d && x.item) snaps.push_back({&x, snap_text(x)});
     }
-    ext_log.clear(); ext_depth = 0; int64_t got;
+    ext_log.clear(); ext_depth = 0; int64_t got, second = 0; bool have_second = false;
     phase(interp ? "MIR_interp" : "call through address", n + fmt(" (iface %d, opt %d)", iface, opt_level));
     std::string ps = prog::ps_of(def); char rt = prog::rt_of(def); bool typed = def.has("ps") || def.has("rt");
     if (typed) C->count("typed_signature_entered");
     for (auto d : model.entered) { std::string q = prog::ps_of(*d); int ni = 0, nf = 0, words = 0; for (char c : q) { if (c == 'l') { if (words & 1) { C->count("ld_stack_arg_after_odd_words_entered"); break; } words += 2; } else if (prog::int_kind(c)) { if (++ni > 6) words++; } else if (++nf > 8) words++; } }
     if (interp) {
-      MIR_val_t res, vals[80]; memset(vals, 0, sizeof vals); memset(&res, 0, sizeof res);
+      MIR_val_t resv[2], vals[80]; memset(vals, 0, sizeof vals); memset(resv, 0, sizeof resv); MIR_val_t &res = resv[0];
       uint64_t blkmem[8][4]; int nb = 0;
       { int ai = 0, di = 0, k = 0; for (char c : ps) { if (const prog::BlkInfo *bi = prog::blk_info(c)) { int64_t v = args[(size_t) ai++]; for (int j = 0; bi->fields[j]; j++) { uint64_t raw = prog::blk_field(bi->fields[j], v, j); if (bi->fields[j] == 'q') blkmem[nb][j] = raw; else { double x = (double) raw; memcpy(&blkmem[nb][j], &x, 8); } } vals[k++].a = blkmem[nb++]; C->count("block_argument_entered"); }
         else if (prog::int_kind(c)) vals[k++].i = args[(size_t) ai++]; else if (c == 'd') vals[k++].d = 2.0 + di++; else if (c == 'f') vals[k++].f = 2.0f + (float) di++; else vals[k++].ld = 2.0L + di++; } }
-      if (!(op.size() > 3 && op[3].num() != 0)) MIR_interp_arr(ctx, f->item, &res, (size_t) (na + nd), vals);
-      else { C->count("interp_variadic_entry"); MIR_interp(ctx, f->item, &res, (size_t) (na + nd), V10(vals, 0), V10(vals, 10), V10(vals, 20), V10(vals, 30), V10(vals, 40), V10(vals, 50), V10(vals, 60), V10(vals, 70)); }  /* both entry points (they size the argument buffer separately) */
+      if (!(op.size() > 3 && op[3].num() != 0)) MIR_interp_arr(ctx, f->item, resv, (size_t) (na + nd), vals);
+      else { C->count("interp_variadic_entry"); MIR_interp(ctx, f->item, resv, (size_t) (na + nd), V10(vals, 0), V10(vals, 10), V10(vals, 20), V10(vals, 30), V10(vals, 40), V10(vals, 50), V10(vals, 60), V10(vals, 70)); }  /* both entry points (they size the argument buffer separately) */
       got = rt == 'd' ? (int64_t) res.d : rt == 'f' ? (int64_t) res.f : rt == 'l' ? (int64_t) res.ld : res.i; f->interp_runs++; C->count("interp_runs");
+      if (rt == 'Q') { second = resv[1].i; have_second = true; }
       if (f->generated) C->count("interp_after_generation");
     } else {
       int64_t a[70] = {0}; for (int i = 0; i < na && i < 70; i++) a[i] = args[(size_t) i];
       void *addr = f->item->addr;
       if (f->addr_seen && f->addr_seen != addr) { out.fail("public_address_changed", "call", fmt("public address of %s changed from %p to %p", n.c_str(), f->addr_seen, addr)); return; }
-      if (typed || (clock_ticks & 3) == 3) { got = call_typed(addr, ps, rt, a); }
+      if (typed || (clock_ticks & 3) == 3) { got = call_typed(addr, ps, rt, a, &second); have_second = rt == 'Q'; }
       else if (na > 8) { got = ((wide_fn) addr)(V10(a, 0), V10(a, 10), V10(a, 20), V10(a, 30), V10(a, 40), V10(a, 50), V10(a, 60)); C->count("wide_function_called"); }
       else got = ((universal_fn) addr)(a[0], a[1], a[2], a[3], a[4], a[5], a[6], a[7], 2.0, 3.0, 4.0, 5.0, 6.0, 7.0, 8.0, 9.0);
       f->addr_calls++; C->count("address_calls");
       if (iface == 3 && f->addr_calls == 1) C->count("gen_lazy_on_first_call");
       if (iface == 4) f->lazybb_entered = true;
     }
+    if (have_second) { C->count("two_results_entered"); if (second != (got ^ 23130)) { out.fail("wrong_result", interp ? "interp" : fmt("iface%d", iface), fmt("%s via %s: the second result is %lld, it should be the first (%lld) ^ 23130", n.c_str(), interp ? "MIR_interp" : "address", (long long) second, (long long) got)); return; } }
     th.u64((uint64_t) got); if (getenv("LCSIM_ALLOC_DUMP")) fprintf(stderr, "got %lld\n", (long long) got);
     bool late = false; for (auto &bl : bound_late) if (bl.first.first == f->mod) { auto b0 = bound.find(bl.first); if (b0 != bound.end() && b0->second.def != bl.second.def) late = true; }
     if (got != want && mods[f->mod].dc_resolver) { C->count("dont_care_observation_skipped"); return; }
@@ -729,7 +731,7 @@ struct LcSim : Harness {
     bool big = r.chance(1, 6);   // large bodies: code that spans pages, many switch tables (absolute-address relocations)
     if (big) { go.body = (int) r.range(20, 70); go.nfuncs = (int) r.range(2, 5); }
     // swarm: feature subset per run
-    go.lref = r.chance(1, 2); go.jt = r.chance(1, 2); go.sw = r.chance(2, 3); go.icall = r.chance(1, 2); go.ext = r.chance(2, 3); go.mem = r.chance(1, 2); go.loops = r.chance(2, 3); go.doubles = r.chance(1, 3); go.recursion = r.chance(1, 2); go.extn = r.chance(1, 4); go.wide = r.chance(1, 8); go.typed = r.chance(2, 5); go.extm = r.chance(1, 4); go.blocks = r.chance(2, 3); go.fcmp = r.chance(1, 2);
+    go.lref = r.chance(1, 2); go.jt = r.chance(1, 2); go.sw = r.chance(2, 3); go.icall = r.chance(1, 2); go.ext = r.chance(2, 3); go.mem = r.chance(1, 2); go.loops = r.chance(2, 3); go.doubles = r.chance(1, 3); go.recursion = r.chance(1, 2); go.extn = r.chance(1, 4); go.wide = r.chance(1, 8); go.typed = r.chance(2, 5); go.extm = r.chance(1, 4); go.blocks = r.chance(2, 3); go.fcmp = r.chance(1, 2); go.two_results = r.chance(1, 2);
     if (big) { go.sw = true; go.sw_weight = 30; go.recursion = false; }
     go.blocked = r.coin();
     prog::Generator g(r, go); Json prog = g.program(); prog::protect_fuel(prog);
